@@ -42,7 +42,9 @@ def tree_hash():
         dirs.sort()
         for f in sorted(files):
             paths.append(os.path.join(root, f))
-    for f in ("build.rs", "Cargo.toml", "Cargo.lock"):
+    # Cargo.lock is not an analysed input: the library has no dependencies, and cargo creates the
+    # file on the first build of a fresh checkout (which must not change the key)
+    for f in ("build.rs", "Cargo.toml"):
         p = os.path.join(REPO, f)
         if os.path.exists(p):
             paths.append(p)
